@@ -1145,6 +1145,15 @@ func (r *run) scriptedServer() {
 				}
 				reply = &msgPkOk{Algo: bad, Key: q.blob}
 				rt.Fault("pk-ok-names-foreign-algorithm")
+			case "familyalgo":
+				// the right key under the algorithm name of the other family:
+				// a certificate algorithm for a plain key and the other way round
+				fam := q.algo + certSuffix
+				if isCertAlgo(q.algo) {
+					fam = underlying(q.algo)
+				}
+				reply = &msgPkOk{Algo: fam, Key: q.blob}
+				rt.Fault("pk-ok-names-foreign-algorithm")
 			case "otheralgo":
 				reply = &msgPkOk{Algo: otherAlgo(blobType(q.blob), q.algo), Key: q.blob}
 				rt.Probe("pk-ok-names-sibling-algorithm")
@@ -1713,7 +1722,7 @@ func genStep(r *rand.Rand) Step {
 		st.Banners = 1 + r.IntN(3)
 	}
 	st.ExtInfo = r.IntN(4) == 0
-	st.Query = pick(r, "", "", "", "", "", "", "fail", "fail", "fail", "wrongkey", "wrongalgo", "otheralgo", "trunc")
+	st.Query = pick(r, "", "", "", "", "", "", "fail", "fail", "fail", "wrongkey", "wrongalgo", "otheralgo", "trunc", "familyalgo")
 	st.Final = pick(r, "", "", "", "", "", "", "partial", "partial", "success", "success")
 	if r.IntN(40) == 0 {
 		st.Final = pick(r, "close", "disconnect")
